@@ -940,7 +940,7 @@ def _run_stage_c(ctx, pool):
 
     _trace(ctx, "sweep model done (%d sequences)" % nseq)
     # ---- random histories at W = 160
-    nh = 120 if ctx.quick else 1200
+    nh = 120 if ctx.quick else 1000
     hist_in = []
     for i in range(nh):
         n_ops = r.choice([30, 120, 120, 400, 400, 900]) if i % 12 else 2000
@@ -977,7 +977,7 @@ def _run_stage_c(ctx, pool):
     ctx.sample({"history": {"cap": hist_in[last][0], "own": "%x" % hist_in[last][1][0],
                             "ops": ops_json(hist_in[last][2][:6]), "impl": [list(x) for x in hist_out[last][0][:6]]}})
     # interleave long and short histories over the shards
-    nsh = 28 if ctx.quick else 140
+    nsh = 28 if ctx.quick else 126
     perm = [j for s in range(nsh) for j in range(s, nh, nsh)]
     shard = (nh + nsh - 1) // nsh
     coq_perm = [coq_cases[j] for j in perm]
